@@ -126,6 +126,29 @@ func c10ZeroShares[E algebra.PrimeGroupElement[E, S], S algebra.PrimeFieldElemen
 		env.Check("C10/sub-context transcript differs from parent", !bytes.Equal(t0, tr0), "sub-context transcript equals the parent's")
 		check("sub-quorum of size "+fmt.Sprint(len(sub)), sub, subCtx)
 	}
+	// dependence: the zero shares of a sub-quorum are derived from the parent session's secret
+	// pairwise seeds — under another session (other seeds) the same party's share for the same
+	// sub-quorum is another value (they are outputs of a PRG over different seeds: represented by
+	// different symbols unless the seed material is identical)
+	if len(subs) > 0 {
+		sub := subs[0]
+		other, err := makeContexts("c10-other-session/"+idsStr(quorum), quorum)
+		if env.Check("C10/contexts-ok", err == nil, fmt.Sprint(err)) {
+			again, err2 := makeContexts("c10/"+idsStr(quorum), quorum)
+			if env.Check("C10/contexts-ok", err2 == nil, fmt.Sprint(err2)) {
+				id := sub[0]
+				sa, e1 := again[id].SubContext(idSet(sub...))
+				sb, e2 := other[id].SubContext(idSet(sub...))
+				if env.Check("C10/subcontext-ok", e1 == nil && e2 == nil, fmt.Sprint(e1, e2)) {
+					za, e3 := przs.SampleZeroShare(sa, algebra.FiniteGroup[S](f))
+					zb, e4 := przs.SampleZeroShare(sb, algebra.FiniteGroup[S](f))
+					if env.Check("C10.a/zero-share-ok", e3 == nil && e4 == nil, fmt.Sprint(e3, e4)) {
+						env.Witness("C10.a/a sub-quorum zero share depends on the session's seeds (differs under another session)", symalg.Not(env.EqF(za.Value(), zb.Value())))
+					}
+				}
+			}
+		}
+	}
 }
 
 // C10Cases builds the case list.
